@@ -456,8 +456,26 @@ def default_cmp(lm, lh):
     return ['length differs']
 
 
+def model_oob_matches_crash(lm, lh):
+    """the model reports an out-of-bounds access (code <= -1000) at some op and the C++ died exactly at that op,
+    agreeing on everything before it"""
+    k = None
+    for i, l in enumerate(lm or []):
+        try:
+            if int(l.split()[0]) <= -1000:
+                k = i
+                break
+        except (ValueError, IndexError):
+            pass
+    if k is None:
+        return False
+    main = [l for l in lh if not l.startswith('!!') and not l.startswith('RT')]
+    # after an out-of-bounds access the C++ behaviour is undefined: it may fault there, later, or not at all
+    return main[:k] == lm[:k]
+
+
 def differential(ctx, comp, harness, batch, oracle, cmp=default_cmp, keep_first=1, nontrivial=None,
-                 runner_ok=True, known=None, max_reports=3, shrink_budget=60, harness_args=()):
+                 runner_ok=True, known=None, max_reports=3, shrink_budget=60, harness_args=(), oob_is_crash=False):
     """batch: list of (sid, lines).  oracle(lines, cpp_lines) -> list of complaints ([] ok) or None (precondition not met).
     known(lines, complaints) -> text of a KNOWN_FINDINGS entry this failure belongs to, or None.
     Returns stats dict."""
@@ -475,6 +493,9 @@ def differential(ctx, comp, harness, batch, oracle, cmp=default_cmp, keep_first=
             else:
                 orc_c = orc + [c for c in crashes if c not in orc]
             corr = cmp(lm, lh) if runner_ok else []
+            if oob_is_crash and runner_ok and orc is None and model_oob_matches_crash(lm, lh):
+                # outside the property's input class; model predicts an out-of-bounds access and the C++ indeed faults: they agree
+                corr, orc_c = [], []
             # complaints attributed to a recorded known finding are set aside (per complaint, not per script)
             kf = []
             if known:
